@@ -87,6 +87,8 @@ class _G1:
             batoms, bconds = ctx.bound_atoms(node, idx)
             iobjs = ctx.objs(idx) | ctx.objs_of_atoms(batoms)
             allo = bobjs | iobjs
+            if INPUT in allo and THIS not in allo and _selected_by_plan_state(ctx, node):
+                allo = allo | {THIS}      # `case 8: y[7] = x[7]`: how far the input is read is decided by the plan's length
             if not (INPUT in allo and THIS in allo):
                 continue
             mixing += 1
@@ -122,6 +124,8 @@ class _G1:
             if "cls" in ce and not ce.get("static") and n.k != "CXXConstructExpr" and obj is not None:
                 if any(r[0] == "this" for r in ctx.flow.root(obj)):
                     objs.add(THIS)
+            if INPUT in objs and THIS not in objs and _selected_by_plan_state(ctx, n):
+                objs = objs | {THIS}      # `switch (n_) { case 8: _fft_n8(x, y); }`: a fixed-size kernel chosen by the plan's length
             if not (INPUT in objs and THIS in objs):
                 continue
             mixing += 1
@@ -162,6 +166,12 @@ class _G1:
     def clean(self, f):
         r = self.analyse(f)
         return not r["own"] and not r["inherits"]
+
+
+def _selected_by_plan_state(ctx, node):
+    """is the node under a branch / switch whose condition depends on the object's state (and not on the input)?"""
+    atoms = ctx.flow._control_atoms(node)
+    return any(a[0] == "this" for a in atoms) and not any(a[0] == "parm" for a in atoms)
 
 
 def _obj(a):
